@@ -71,6 +71,12 @@ ShortJoin == {[calls |-> q, gaps |-> g, hold |-> [a |-> h, b |-> FALSE], store |
 ShortAbandon == {[calls |-> q, gaps |-> g, hold |-> [a |-> h, b |-> FALSE], store |-> "ack", fault |-> NoFault, long |-> 0, abandon |-> {"getA1"}] :
                    q \in {<<"putA1", "getA1">>, <<"getA1", "putA1">>, <<"getA1", "getA2">>, <<"getA1", "putA1", "getA2">>, <<"putA2", "getA1">>},
                    g \in {<<0>>, <<30>>, <<45>>, <<75>>, <<0, 30>>, <<30, 45>>}, h \in {0, 1, 2}}
+\* a WRITER that stops listening: the receiver of the first put is dropped right after the call (a put future that was cancelled or
+\* timed out on the caller's side) - the put itself is still in flight, in its lookup (gaps 0 .. 100) or held in its store phase by a
+\* peer that never answers the write (drop_p1, gap 400) - and a second put on the key arrives: every row of the conflict table
+ShortAbandonPut == {[calls |-> q, gaps |-> g, hold |-> [a |-> h, b |-> FALSE], store |-> st, fault |-> NoFault, long |-> 0, abandon |-> {"putA1"}] :
+                   q \in {<<"putA1", c>> : c \in {"putA1b", "putA2", "putA2c", "putA0", "putA2x", "putA0c", "getA1"}} \cup {<<"putA1", "putA2", "getA1">>},
+                   g \in {<<0>>, <<30>>, <<100>>, <<400>>, <<30, 30>>, <<400, 30>>}, h \in {0, 1}, st \in {"ack", "drop_p1"}}
 Init == x = 0
 Next == UNCHANGED x
 Spec == Init /\ [][Next]_x
@@ -81,4 +87,5 @@ Emit == PrintT(<<"GEN", ToJson({p \in Short : Valid(p)})>>) /\ PrintT(<<"GEN", T
         /\ PrintT(<<"GEN", ToJson({p \in ShortGhost : Valid(p)})>>)
         /\ PrintT(<<"GEN", ToJson({p \in ShortJoin : Valid(p)})>>)
         /\ PrintT(<<"GEN", ToJson({p \in ShortAbandon : Valid(p)})>>)
+        /\ PrintT(<<"GEN", ToJson({p \in ShortAbandonPut : Valid(p)})>>)
 =============================================================================
